@@ -193,9 +193,18 @@ pub struct MEdge {
 pub struct RefGraph {
     pub nodes: BTreeMap<u64, MNode>,
     pub edges: BTreeMap<u64, MEdge>,
+    /// Only used by bug-compatible ("as-is") variants of a model: property values written
+    /// to a node id that does not exist; they surface if the id is handed out again.
+    #[serde(default)]
+    pub orphans: BTreeMap<u64, BTreeMap<String, SV>>,
 }
 
 impl RefGraph {
+    /// Equality of the observable graph (orphans are not observable by themselves).
+    pub fn same_graph(&self, other: &RefGraph) -> bool {
+        self.nodes == other.nodes && self.edges == other.edges
+    }
+
     pub fn label_members(&self, l: &str) -> Vec<u64> {
         self.nodes
             .iter()
